@@ -21,6 +21,7 @@ func TestSweep(t *testing.T) {
 	env := kit.GetEnv(Property)
 	rec := kit.NewRecorder(env, "sweep")
 	defer func() { rec.Flush(!t.Failed()) }()
+	longOnes := 0
 	for _, e := range Pairs {
 		ds := e.S.Bits
 		Oracle.One(t, env, rec, "sweep", &Case{S: e.S.Name, D: e.D.Name, Amps: BAmps[ds]})
@@ -33,6 +34,9 @@ func TestSweep(t *testing.T) {
 		// long and wide at once: more channels than 8 and more samples than 2^15 / 2^16
 		Oracle.One(t, env, rec, "sweep", &Case{S: e.S.Name, D: e.D.Name, Amps: BAmps[ds], Pad: 40000, Ch: 12})
 		Oracle.One(t, env, rec, "sweep", &Case{S: e.S.Name, D: e.D.Name, Amps: BAmps[ds], Pad: 70001, Ch: 64, Fix: 1})
+		if longOnes++; longOnes%8 == 1 { // every eighth pair: one call converting more than 2^17 samples
+			Oracle.One(t, env, rec, "sweep", &Case{S: e.S.Name, D: e.D.Name, Amps: BAmps[ds], Pad: 150001, Ch: 2})
+		}
 		Oracle.One(t, env, rec, "sweep", &Case{S: e.S.Name, D: e.D.Name, Amps: BAmps[ds], Fix: 3}) // buffers recycled through a pool
 		Oracle.One(t, env, rec, "sweep", &Case{S: e.S.Name, D: e.D.Name, Amps: BAmps[ds], Fix: 4}) // buffers grown out of an empty window by Append
 		Oracle.One(t, env, rec, "sweep", &Case{S: e.S.Name, D: e.D.Name, Amps: BAmps[ds], Fix: 5}) // the source was the destination of a conversion before, converted through a window cut then
